@@ -327,7 +327,9 @@ FS_VALUES = ["x", "(f x)", "\"s\"", "1", ":k", "[a b]", "f\"{y}\"", "x.y", "(. x
 FS_DEBUG = ["", " =", "=", " = ", " =  "]
 FS_CONV = ["", "!r", "!s", "!a", "!z"]
 FS_SPEC = ["", ":", ":>10", ":{w}", ":>{w}", ":{w}.{p}", ":>{w}.{p}f", ":{a}{b}", ":{{", ":x{{y", ":{w !r}", ":{w :{v}}", ": ",
-           ":{w}x", ":.{p}", ":{w :{u}{v}}", ":a b", ":é", ":{(f x)}", ":{{{w}", ":a\\\\b"]
+           ":{w}x", ":.{p}", ":{w :{u}{v}}", ":a b", ":é", ":{(f x)}", ":{{{w}", ":a\\\\b",
+           # a nested debug field: its verbatim text is a literal piece of its own, next to the literal before it
+           ":a{w = }", ":{w = }x", ":a{w=}b{p = !s}"]
 WRAPPERS = ["({})", "[{}]", "{{{}}}", "#{{{}}}", "#({})", "'{}", "`{}", "~{}", "~@{}", "#* {}", "#** {}"]
 SEQ_WRAPPERS = WRAPPERS[:5]
 EXPLICIT = ["()", "[]", "{}", "#{}", "#()", "(quote)", "(quote a b)", "(quasiquote)", "(unquote a b)", "(unquote-splice)",
